@@ -317,7 +317,7 @@ theorem number_is_not_option (tok : String) (hn : isNumber tok = true) : isOptio
   simp [isOptionTok, hn]
 
 /-- **generate_equiv_args_partial**: on the documented example and on the argument list of finding F3 the
-namespace obtained through `generate` + `merge_config` equals the one argparse produces from the
+result obtained through `generate` + `merge_config` (the namespace) equals the one argparse produces from the
 arguments (kernel-evaluated for the regenerated evo_ape table).  The general statement — for every
 well-formed long-option list over the three tables, `mergeConfig defaults (generate toks)` ≈
 `argparseLong toks` — is NOT proved: `generate_groups` proves the `generate` half for all lists;
